@@ -12,7 +12,8 @@ ID = "C06"
 LEVEL = "fault_enumeration"
 RULE = ("as C05: (connection type x request shape x context x flavour) x (every network op x fault kind) + (every "
         "suspension point x cancellation style); distinct+non-trivial = injection that fired, identified by "
-        "(type, shape, context, flavour, injection label, trace phase)")
+        "(type, shape, context, flavour, injection label, trace phase); plus the real-socket tier: an fd ledger (/proc/self/fd) over "
+        "the three real back-ends x 13 loopback server behaviours incl. failed, timed-out and cancelled TLS handshakes")
 ASSUMPTIONS = ["simulated streams count as closed once close()/aclose() was *called* (as socket.close() precedes the "
                "checkpoint in the real back-ends)",
                "start_tls closes the transport on failure but not on cancellation, as the real back-ends do",
@@ -38,10 +39,37 @@ def judge(res, facts, inject, label, base, cnt):
     return out[:1]
 
 
+def run_realsock(case):
+    """fd ledger over the real back-ends: after the call, pool close and gc no socket opened for it may remain."""
+    from .. import realsock
+    viol = []
+    cnt = {k: 0 for k in ["runs", "faults_fired", "cancels_fired", "oracle_quiescent_ownership", "oracle_closed_after_pool_close",
+                          "transports_opened", "real_socket_runs", "fd_ledger_checks"]}
+    sigs = []
+    for b in realsock.BEHAVIOURS:
+        res = realsock.run_one(case["backend"], b)
+        if res.get("outcome") == "n/a":
+            continue
+        cnt["real_socket_runs"] += 1
+        cnt["fd_ledger_checks"] += 1
+        sigs.append(f"realsock|{case['backend']}|{b}")
+        if res.get("resource_warnings"):
+            viol.append({"key": f"realsock-unclosed-socket:{case['backend']}:{b}",
+                         "what": f"socket(s) to the server never closed by the code (closed by the finaliser): {res['resource_warnings'][:2]}",
+                         "detail": {"backend": case["backend"], "behaviour": b, "warnings": res["resource_warnings"]}})
+        if res["fd_leak"]:
+            viol.append({"key": f"realsock-fd-leak:{case['backend']}:{b}",
+                         "what": f"{len(res['fd_leak'])} socket fd(s) still open after the call ({res.get('outcome')}), pool close and gc",
+                         "detail": {"backend": case["backend"], "behaviour": b, "fds": res["fd_leak"]}})
+    return {"viol": viol, "counters": cnt, "sigs": sigs, "sample": None}
+
+
 def run_case(case):
+    if case.get("realsock"):
+        return run_realsock(case)
     return run_enumeration(case, judge, {"oracle_quiescent_ownership": 0, "oracle_closed_after_pool_close": 0,
                                          "transports_opened": 0})
 
 
 def plan(tier, seed):
-    return plan_cases(tier, seed + 1000)
+    return plan_cases(tier, seed + 1000) + [{"realsock": True, "backend": be} for be in ("sync", "anyio", "trio")]
